@@ -129,6 +129,8 @@ Begin(r) ==
               ELSE IF r.load = "bind" /\ bind = "ok" THEN "load"
               ELSE IF r.load = "ok" /\ bind # "ok" THEN "bind.accept"
               ELSE IF r.load = "ok" /\ ~ObservedOk(t) THEN "signals"
+              \* which of the binder's checks refuses (their order is the code's; no listed property fixes it: owned by none)
+              ELSE IF r.load = "bind" /\ "load_class" \in DOMAIN r /\ r.load_class # bind THEN "bind.kind"
               ELSE "ok"
   IN
   /\ run' = r.run
